@@ -1,5 +1,5 @@
 SPECIFICATION Spec
-CONSTANTS Mode = "queue"  Retries = 1  MaxSteps = 4
+CONSTANTS Mode = "queue"  Retries = 1  MaxSteps = 6
 INVARIANTS Agree
 VIEW View
 CHECK_DEADLOCK FALSE
